@@ -402,6 +402,11 @@ func runC12(t *testing.T, c HandleCase) (*h.Violation, h.Info) {
 			}
 		case "yield":
 			time.Sleep(200 * time.Microsecond)
+		case "clock-back":
+			// the wall clock is stepped back (an NTP correction, a VM resumed from a snapshot): what a
+			// handle yields has nothing to do with the time of day
+			clock.Advance(-45)
+			info.Class("wall-clock-stepped-back")
 		case "failed-poll":
 			// the service fails the request for ONE secret during an explicit poll: the poll reports it,
 			// nothing it fetched for the other secrets counts as installed, and the next poll starts afresh
@@ -761,7 +766,7 @@ func genHandleCase(rt *rapid.T) HandleCase {
 	c.Events = rapid.SliceOfN(rapid.Custom(func(rt *rapid.T) HEvent {
 		return HEvent{
 			Back: rapid.IntRange(0, 3).Draw(rt, "back") == 0,
-			Kind: rapid.SampledFrom([]string{"set", "set", "set", "poll", "poll", "refresh", "failed-poll", "lookup", "expire", "yield", "yield", "parked-poll", "parked-lookup", "handle-during-poll", "joiner-timeout", "double-lookup", "idle-handle", "leader-cancelled", "close"}).Draw(rt, "kind"),
+			Kind: rapid.SampledFrom([]string{"set", "set", "set", "poll", "poll", "refresh", "failed-poll", "clock-back", "lookup", "expire", "yield", "yield", "parked-poll", "parked-lookup", "handle-during-poll", "joiner-timeout", "double-lookup", "idle-handle", "leader-cancelled", "close"}).Draw(rt, "kind"),
 			Name: rapid.SampledFrom([]string{"d1", "d1", "d2", "u1", "u2", "u3", "c1", "c2"}).Draw(rt, "name"),
 		}
 	}), h.LenBias(rt, 3, 30), 30).Draw(rt, "events")
